@@ -7,6 +7,6 @@ git apply "$P" || { echo "patch does not apply"; exit 2; }
 cd /verif
 for c in "$@"; do
   ./check "$c" > /tmp/try_$c.out 2>&1; rc=$?
-  echo "== $c exit=$rc"; grep -E "^VIOLATED|^KNOWN|^FATAL|detail" /tmp/try_$c.out | head -${TRY_LINES:-12}
+  echo "== $c exit=$rc"; grep -E "^VIOLATED|^FATAL|detail|Traceback" /tmp/try_$c.out | head -${TRY_LINES:-12}
 done
 git -C /repo checkout -- . 
